@@ -302,6 +302,7 @@ func c15eval(r *vx.R, c c15case, pts map[string]sm2ref.Point) {
 func TestVX_C15_Arith(t *testing.T) {
 	r := vx.Begin("C15", "point-arith", "points A={O,+-G,+-2G,+-3G,S0,-S0,S1,S2} in projective representatives (lx:ly:l), l in {1,2,p-1,seeded} (O as (0:l:0)); Add over A x A x l^2 x aliasing {fresh, q=p1, q=p2, p1=p2, all same}; Double/Negate (fresh, aliased), Select(cond 0/1, aliased), Set; receivers with an earlier life (decoded and converted, generator, result of an addition, infinity) for every operation, with all conversions of the result checked; oracle = affine group law in sm2ref; every result must satisfy Y^2Z=X^3-3XZ^2+bZ^3; operands not written unless aliased; conversions Bytes/Bytes_Unsafe/GetAffineX/GetAffineX_Unsafe agree on every representative")
 	defer r.End()
+	defer vxSeamReport(r)
 	names, pts := c15pts()
 	if raw, ok := vx.Replay("point-arith"); ok {
 		var c c15case
